@@ -92,7 +92,9 @@ def field (impl k : String) : String :=
 
 def handle (kind : String) (args : List String) (impl : String) : String :=
   match kind, args with
-  | "c09.life", proto :: mode :: lim :: toks =>
+  | "c09.life", proto :: mode :: lim :: toks0 =>
+    -- O = o with 40 pipelined requests: the same connection as far as the listener is concerned
+    let toks := toks0.map fun t => if t == "O" then "o" else t
     match lim.toNat? with
     | none => "bad-op"
     | some limit =>
